@@ -92,6 +92,33 @@ claim('C18',
   "Tied to the code by R_session (histories over solve/get_* incl. re-solves, limits and idle gaps under a scripted clock) and judged by "
   "M_getters. F12, F13 repaired.")
 
+claim('C02',
+  "Coq theorems (stage invariant, ~660 lines + stability encoding): for every well-formed instance, admissible option set and oracle "
+  "satisfying the MILP contract the run never fails (no builder failure, no duplicate variable name), reports Optimal iff a matching "
+  "satisfying the requested constraints exists and Infeasible otherwise; every objective-variable bound admits every attainable value. "
+  "Tied to the code by R_lp (problems incl. bounds and name partition); M_status compares the reported status with feasibility by "
+  "enumeration in Coq and flags any escaping exception. F01-F06 repaired (corpus/C02).",
+  "C02: CBC assumed to satisfy milp_ok; 'admissible' = -stab only on two-sided instances, distinct criteria, non-negative multipliers, "
+  "generous cut-off within 1..max rank, greedy cut-off >= 1.")
+claim('C03',
+  "Coq theorems: the stages run for each criterion are the documented objectives (defaults included), and with one criterion the printed "
+  "matching is lexicographically optimal for them among ALL matchings satisfying the requested constraints, for every oracle satisfying the "
+  "MILP contract (any tie-break). Tied to the code by R_lp; M_lex judges the printed matching by enumeration in Coq (trade-off instances "
+  "included so that criteria disagree).",
+  "C03: CBC assumed to satisfy milp_ok; criteria whose stage list is empty (maximum rank 0) are excluded by hypothesis.")
+claim('C04',
+  "Coq theorems: the printed matching is LexOpt for the concatenated stage lists in list order over all feasible matchings (so a later "
+  "criterion never worsens an earlier one), and the list order is the position order whatever the flag order (parser theorem). Tied to the "
+  "code by R_lp and R_opts; M_lex judges runs with 2-4 criteria at shuffled flags / gapped positions by enumeration in Coq.",
+  "C04: CBC assumed to satisfy milp_ok; flag-order independence of the namespace is argparse's (sampled).")
+claim('C05',
+  "Coq theorems: the alpha/beta/gamma rows are sound (every 0/1 point denotes a matching without blocking pair by the SPA-STL definition) "
+  "and complete (every stable valid matching's canonical assignment satisfies them), for all two-sided well-formed instances incl. ties, "
+  "shared lecturers, zero capacities, closures; an Optimal -stab run prints a stable matching; with C02/C04 feasibility and optima range "
+  "over all stable valid matchings. Tied to the code by R_lp on the stability rows; M_stable / M_status / M_lex judge printed matchings, "
+  "statuses and max/min stable sizes by enumeration in Coq.",
+  "C05: CBC assumed to satisfy milp_ok.")
+
 NOT_YET = {}
 
 def main():
